@@ -312,6 +312,24 @@ theorem sendKeyUpdate_eq (C : Crypto) (c : Conn) (req : Bool) :
 theorem sendKeyUpdate_outOnly (C : Crypto) (c : Conn) (req : Bool) : OutOnly c (sendKeyUpdate C c req).2 := by
   rw [sendKeyUpdate_eq]; exact ⟨rfl, rfl, rfl, rfl, rfl, rfl, rfl, rfl⟩
 
+theorem handleMsg_ku (C : Crypto) (c1 : Conn) (req : Bool) (hr : c1.retry = 0) :
+    handleMsg C c1 typeKeyUpdate [if req then 1 else 0] =
+      (if req = true then
+        .cont (sendKeyUpdate C { c1 with retry := 1, inn := rekey C c1.inn } false).2
+          (sendKeyUpdate C { c1 with retry := 1, inn := rekey C c1.inn } false).1
+      else .cont { c1 with retry := 1, inn := rekey C c1.inn } []) := by
+  unfold handleMsg
+  rw [if_pos rfl]
+  cases req with
+  | false =>
+    simp only [Bool.false_eq_true, if_false]
+    rw [if_neg (by decide), hr]
+    simp only [Nat.zero_add, if_neg (show ¬ (1 > maxUselessRecords) by decide), if_neg (show ¬ ((0 : UInt8).toNat = 1) by decide)]
+  | true =>
+    simp only [if_true]
+    rw [if_neg (by decide), hr]
+    simp only [Nat.zero_add, if_neg (show ¬ (1 > maxUselessRecords) by decide), if_pos (show (1 : UInt8).toNat = 1 by decide)]
+
 /-- `handlePostHandshakeMessage` on exactly one KeyUpdate message in `hand`. -/
 theorem drainHand_ku (C : Crypto) (c : Conn) (req : Bool) (sent : List Bytes) (f : Nat) (hv : c.p.s.vers = v13)
     (hh : c.hand = keyUpdateMsg req) (hr : c.retry = 0) :
@@ -320,13 +338,26 @@ theorem drainHand_ku (C : Crypto) (c : Conn) (req : Bool) (sent : List Bytes) (f
         .next (sendKeyUpdate C { c with hand := [], retry := 1, inn := rekey C c.inn } false).2
           (sent ++ (sendKeyUpdate C { c with hand := [], retry := 1, inn := rekey C c.inn } false).1)
       else .next { c with hand := [], retry := 1, inn := rekey C c.inn } sent) := by
+  have hstep : drainHand C (f + 2) c sent =
+      (match handleMsg C { c with hand := [] } typeKeyUpdate [if req then 1 else 0] with
+       | .cont c2 s2 => drainHand C (f + 1) c2 (sent ++ s2)
+       | .fail e c2 s2 => .fail e c2 (sent ++ s2)) := by
+    rw [drainHand, hh]
+    simp only [keyUpdateMsg]
+    rw [if_neg (by simp [hv])]
+    simp only [show ((0 : UInt8).toNat * 65536 + (0 : UInt8).toNat * 256 + (1 : UInt8).toNat) = 1 by decide]
+    rw [if_neg (by decide), if_neg (by simp)]
+    rfl
+  rw [hstep, handleMsg_ku C { c with hand := [] } req hr]
   cases req with
   | false =>
-    simp [drainHand, hh, keyUpdateMsg, hv, hr, typeKeyUpdate, maxHandshake, maxUselessRecords]
+    simp only [Bool.false_eq_true, if_false]
+    rw [drainHand]; simp
   | true =>
-    have hho := (sendKeyUpdate_outOnly C { c with hand := [], retry := 1, inn := rekey C c.inn } false).hand
-    simp [drainHand, hh, keyUpdateMsg, hv, hr, typeKeyUpdate, maxHandshake, maxUselessRecords]
-    simp at hho
+    simp only [if_true]
+    have hho := (sendKeyUpdate_outOnly C ({ c with hand := [], retry := 1, inn := rekey C c.inn } : Conn) false).hand
+    rw [drainHand]
+    simp only at hho ⊢
     rw [hho]
 
 end Record
